@@ -27,7 +27,7 @@ import rustlex  # noqa: E402
 
 REPO = os.environ.get("VERIF_REPO", "/repo")
 UNITS = os.path.join(ROOT, "units")
-EVID = os.path.join(ROOT, "evidence")
+EVID = os.environ.get("VERIF_EVIDENCE_DIR") or os.path.join(ROOT, "evidence")
 REPLAY = os.path.join(ROOT, "replay")
 KNOWN = os.path.join(ROOT, "known_findings.txt")
 MEM_KB = int(os.environ.get("VERIF_MEM_KB", str(20 * 1024 * 1024)))  # per-process address space cap
@@ -637,7 +637,7 @@ def native_replay(unit, rp, stage_dir, scratch):
     shutil.copytree(src, dst)
     for root, _, fs in os.walk(dst):
         for fn in fs:
-            if fn == "Cargo.toml":
+            if fn == "Cargo.toml" or fn.endswith(".rs"):
                 p = os.path.join(root, fn)
                 s = open(p).read().replace("@STAGE@", stage_dir)
                 open(p, "w").write(s)
